@@ -922,6 +922,14 @@ Lemma finish_after_abandoned_write :
     qs_log (s_q s') = [0; 4; 1; 2; 3; 4].
 Proof. do 3 eexists. split; [vm_compute; reflexivity|]. repeat split; vm_compute; reflexivity. Qed.
 
+Lemma send_drop_keeps s :
+  qs_log (send_drop s) = qs_log (s_q s) /\ qs_reset (send_drop s) = qs_reset (s_q s) /\ qs_id (send_drop s) = qs_id (s_q s) /\
+  qs_finished (send_drop s) = (qs_finished (s_q s) || negb (match qs_reset (s_q s) with Some _ => true | None => false end)) /\
+  (qs_finished (s_q s) = true -> send_drop s = s_q s).
+Proof.
+  unfold send_drop. destruct (qs_finished (s_q s)) eqn:Hf; destruct (qs_reset (s_q s)) eqn:Hr; cbn; rewrite ?Hf, ?Hr; repeat split; auto; discriminate.
+Qed.
+
 Lemma reset_code_spec c : reset_code c = Ok (spec_reset_code c).
 Proof.
   unfold reset_code, spec_reset_code. rewrite fact_saturates. destruct (N.leb_spec c varint_max); f_equal; lia.
